@@ -303,6 +303,8 @@ def gen_timer_case(rng, name, props, nops=None, drain=None):
         elif c < 0.76:
             ops.append({"op": "nwait", "now": instant_near(rng, now)})
         elif c < 0.80:
+            if rng.random() < 0.15:
+                ops.append({"op": "shutdown"})       # a pending shutdown request must not change the waits
             ops.append({"op": "nwaitmax", "now": instant_near(rng, now),
                         "max": rng.choice([[0, 0], [0, TICK], [60, 0], [100000, 0], [0, 1]]),
                         "pending": rng.random() < 0.3})
